@@ -19,6 +19,8 @@ mod encrypted_header;
 pub mod api;
 #[cfg(cosmian_cover_crypt_verif)]
 pub mod verif_sync;
+#[cfg(cosmian_cover_crypt_verif)]
+pub mod verif_emit;
 pub mod traits;
 
 pub use abe_policy::{AccessStructure, EncryptionHint, QualifiedAttribute};
